@@ -175,7 +175,8 @@ be_pair_transfer(struct bufferevent *src, struct bufferevent *dst,
 
 	if (n) {
 		/* (a flush also transfers to a partner that is not reading) */
-		if (dst->enabled & EV_READ)
+		if ((dst->enabled & EV_READ) &&
+		    !BEV_UPCAST(dst)->read_suspended)
 			BEV_RESET_GENERIC_READ_TIMEOUT(dst);
 
 		if (evbuffer_get_length(dst->output) &&
